@@ -418,6 +418,9 @@ def c18(tier, seed, work):
             F.console_metrics_family(work, "c18-nosess", False, "CmdsAB", 2, depth, "KindsRetryNS", 1, 1, codes="CodesAll")]
     hs = [F.handshake_family(work, "c18-lifecycle", "lifecycle", tier, seed, metrics=True)]
     fams += hs
+    # every library command (incl. the five DCMI capability commands that share one operation) and real-time retries
+    fams.append(F.walk_family(work, "c18-api", "MCGenApi", "Gen_Cipher.cfg.tpl", "api", tier, seed, metrics=True))
+    fams.append(F.walk_family(work, "c18-realtime", "MCGenTiming", "Gen_Cipher.cfg.tpl", "metrics", tier, seed, metrics=True))
     require_accepted(fams)
     viols = []
     for f in fams:
